@@ -847,4 +847,25 @@ theorem copy_same_of_built (old : Lit) (h : Built old) :
   simp only [mkFromLit]
   rw [h1]; exact h2
 
+
+/-! ### eq with a plain Python object -/
+
+theorem eqPy_outside {l : Lit} {v : PyVal} (h : eqPyDomain l.dt v = false) : l.eqPy v = none := by
+  simp [Lit.eqPy, h]
+
+theorem eqPy_value {l : Lit} {v x : PyVal} (hd : eqPyDomain l.dt v = true) (hv : l.value = some x)
+    (hs : v.isStr = false) : l.eqPy v = some (pyEq x v) := by
+  unfold Lit.eqPy
+  rw [if_pos hd]
+  cases v <;> first | (simp [PyVal.isStr] at hs; done) | simp [hv]
+
+theorem eqPy_str {l : Lit} {s : Str} (hb : Built l) (hd : eqPyDomain l.dt (.str s) = true) :
+    ∃ x, l.value = some x ∧ l.eqPy (.str s) = some (pyEq x (.str s)) := by
+  have hsd : isStringDt l.dt = true := hd
+  have hv := string_value_of_built hb hsd
+  refine ⟨_, hv, ?_⟩
+  unfold Lit.eqPy
+  rw [if_pos hd]
+  simp [pyEq]
+
 end RV.C09
